@@ -27,6 +27,8 @@ type Config struct {
 	Verbose     bool
 	PanicsAreViolations bool
 	Fallback    []string
+	MaxViolations int
+	EagerChecks bool
 	FallbackTimeoutMs int
 	Progress    int
 }
@@ -133,6 +135,8 @@ type Machine struct {
 	facts    map[*sym.Term]*sym.Term
 	lastProgress time.Time
 	fallback map[string]*sym.Solver
+	obligations []obligation
+	pcAll    *sym.Term
 	FallbackQueries int
 }
 
@@ -167,6 +171,11 @@ func (m *Machine) addPC(t *sym.Term) {
 		return
 	}
 	m.pc = append(m.pc, t)
+	if m.pcAll == nil {
+		m.pcAll = t
+	} else {
+		m.pcAll = m.ctx.And(m.pcAll, t)
+	}
 	m.addFact(t)
 }
 
@@ -400,11 +409,15 @@ func (m *Machine) check(cond *sym.Term, kind, label string) {
 			m.endPath(kind)
 		}
 		m.setModel(md)
-	} else {
+	} else if m.Cfg.EagerChecks {
 		r, md := m.query(m.ctx.Not(cond))
 		if r == sym.Sat {
 			m.violation(kind, label, md, "")
 		}
+	} else {
+		// the current model witnesses the passing side; the failing side is
+		// decided in one batched query at the end of the path
+		m.obligations = append(m.obligations, obligation{pre: m.pcAll, cond: cond, kind: kind, label: label, frames: m.captureFrames()})
 	}
 	n.alts = []alt{{0, m.model}}
 	m.stack = append(m.stack, n)
@@ -445,15 +458,38 @@ func (m *Machine) assume(cond *sym.Term) {
 	m.addPC(cond)
 }
 
-func (m *Machine) curPos() (string, string, []string) {
-	var stackS []string
-	pos, fn := "", ""
+type frameRef struct {
+	fn  *ssa.Function
+	cur ssa.Instruction
+}
+
+type obligation struct {
+	pre, cond   *sym.Term
+	kind, label string
+	frames      []frameRef
+}
+
+// captureFrames snapshots the call stack (innermost first) cheaply.
+func (m *Machine) captureFrames() []frameRef {
 	var cs []*Frame
 	if m.task != nil {
 		cs = m.task.stack
 	}
+	out := make([]frameRef, 0, len(cs))
 	for i := len(cs) - 1; i >= 0; i-- {
-		fr := cs[i]
+		out = append(out, frameRef{cs[i].fn, cs[i].cur})
+	}
+	return out
+}
+
+func (m *Machine) curPos() (string, string, []string) {
+	return m.describeFrames(m.captureFrames())
+}
+
+func (m *Machine) describeFrames(frs []frameRef) (string, string, []string) {
+	var stackS []string
+	pos, fn := "", ""
+	for _, fr := range frs {
 		p := ""
 		if fr.cur != nil {
 			p = m.prog.Fset.Position(instrPos(fr)).String()
@@ -464,13 +500,13 @@ func (m *Machine) curPos() (string, string, []string) {
 			fn = fr.fn.String()
 		}
 	}
-	if fn == "" && len(cs) > 0 {
-		fn = cs[len(cs)-1].fn.String()
+	if fn == "" && len(frs) > 0 {
+		fn = frs[0].fn.String()
 	}
 	return pos, fn, stackS
 }
 
-func instrPos(fr *Frame) token.Pos {
+func instrPos(fr frameRef) token.Pos {
 	if fr.cur == nil {
 		return token.NoPos
 	}
@@ -486,8 +522,46 @@ func instrPos(fr *Frame) token.Pos {
 	return fr.fn.Pos()
 }
 
+// flushObligations decides all deferred VCs of the current path in one query:
+// is some (path prefix ∧ ¬condition) satisfiable?
+func (m *Machine) flushObligations() {
+	obl := m.obligations
+	m.obligations = nil
+	savePC, saveFacts := m.pc, m.facts
+	m.pc, m.facts = nil, nil
+	defer func() { m.pc, m.facts = savePC, saveFacts }()
+	c := m.ctx
+	for len(obl) > 0 {
+		disj := c.False
+		for _, o := range obl {
+			disj = c.Or(disj, c.And(o.pre, c.Not(o.cond)))
+		}
+		r, md := m.query(disj)
+		if r != sym.Sat {
+			return // unsat: all hold; unknown: counted by query()
+		}
+		ev := sym.NewEvaluator(md)
+		var rest []obligation
+		for _, o := range obl {
+			if ev.Bool(o.pre) && !ev.Bool(o.cond) {
+				m.violationAt(o.kind, o.label, md, "", o.frames)
+			} else {
+				rest = append(rest, o)
+			}
+		}
+		if len(rest) == len(obl) {
+			return
+		}
+		obl = rest
+	}
+}
+
 func (m *Machine) violation(kind, label string, md *sym.Model, detail string) {
-	pos, fn, st := m.curPos()
+	m.violationAt(kind, label, md, detail, m.captureFrames())
+}
+
+func (m *Machine) violationAt(kind, label string, md *sym.Model, detail string, frs []frameRef) {
+	pos, fn, st := m.describeFrames(frs)
 	key := kind + "|" + label + "|" + pos
 	if kind == "assert" {
 		key = kind + "|" + label
@@ -570,6 +644,8 @@ func (m *Machine) resetPath() {
 	m.sched = nil
 	m.ghost = map[interface{}]interface{}{}
 	m.facts = nil
+	m.obligations = nil
+	m.pcAll = m.ctx.True
 	m.pathReached = nil
 }
 
@@ -623,6 +699,9 @@ func (m *Machine) Explore(fn *ssa.Function) Outcome {
 		if len(m.Stats.EngineErrors) > 20 {
 			return Outcome{false, "too many engine errors"}
 		}
+		if m.Cfg.MaxViolations > 0 && len(m.Violations) >= m.Cfg.MaxViolations {
+			return Outcome{false, fmt.Sprintf("stopped after %d violations", len(m.Violations))}
+		}
 		tot := 0
 		for _, n := range m.Stats.Unsupported {
 			tot += n
@@ -635,6 +714,7 @@ func (m *Machine) Explore(fn *ssa.Function) Outcome {
 }
 
 func (m *Machine) runPath(fn *ssa.Function) {
+	defer m.flushObligations()
 	defer func() {
 		if r := recover(); r != nil {
 			switch e := r.(type) {
